@@ -100,4 +100,17 @@ example :
   refine ⟨?_, by decide⟩
   simp [CBuf.NoStale, CBuf.pre, CBuf.frame, CBuf.emit, CBuf.age, CBuf.drain, CBuf.items]
 
+/-- Non-vacuity of the history theorem: emissions in every mode, before the server runs
+(singleplayer) and while it runs with a client connected (listen server), one of them
+independent: the local game observes 1, 2 (before the start) and 4, 6 — not the event addressed
+to client 0 only, nor the one that excludes the local server. -/
+example :
+    let e (i : Nat) (m : Evt.Mode) (ind : Bool) : Joint.Op := .emit { ev := { id := i, chan := 2, mode := m }, independent := ind }
+    let ops : List Joint.Op :=
+      [e 1 .broadcast false, e 2 (.direct none) false, e 3 (.direct (some 0)) false, .frame false 10 (fun _ => []),
+       .start, .connect 0 true, e 4 (.except (some 0)) false, e 5 (.except none) false, e 6 .broadcast true,
+       .frame true 10 (fun _ => [])]
+    ((Joint.run {} ops).1.localLog, Joint.emittedLocal ops) = ([1, 2, 4, 6], [1, 2, 4, 6]) := by
+  decide
+
 end Replicon.C13
